@@ -57,7 +57,7 @@ def alphabet(tier):
 def run(tier, seed, jobs):
     from .hcommon import run_h
 
-    depth = 4 if tier == "quick" else 5
+    depth = 3 if tier == "quick" else 5
     return run_h(PROP, RULES, [{"cfg_ref": ("vf.props.c02", "cfg", []), "alphabet": alphabet(tier), "depth": depth, "label": "INBOX(2),a,a/b"}],
                  ("C02",), jobs, seed,
                  ["one session; mailboxes INBOX(2 messages), a, a/b; pack threshold lowered to 3 messages / ratio 0.8 via the class attributes",
